@@ -105,6 +105,19 @@ def harness(c, cfg):
         lead = F1 if bool(now < F1.last_trading_date) else F2
         c.prove("C14:chain-key-addresses-current-lead-book", ex[chain] is ex[lead],
                 info={"now": now, "lead": lead.symbol})
+        # ... also for a chain configured with a month offset (second-nearest contract)
+        F3 = ES(2030, 9)
+        chain1 = FutureChain(contracts=[F1, F2, F3], month=1)
+        lead1 = F2 if lead is F1 else F3
+        c.prove("C14:offset-chain-key-addresses-its-lead-book", ex[chain1] is ex[lead1] and
+                chain1.lead_contract() is lead1, info={"now": now, "lead": lead1.symbol})
+        arr1 = ex.acq_prices([chain, chain1], np.array([1, 1]))
+        want1 = [ex[lead].ask_price, ex[lead1].ask_price]
+        for g, w in zip(arr1, want1):
+            if _isnan(w):
+                c.prove("C14:acq_prices-chain-keys", _isnan(g))
+            else:
+                c.prove_eq("C14:acq_prices-chain-keys", g, w)
         c.record("books", [[k, model[k]["alive"], model[k]["bid"], model[k]["ask"]] for k in KEYS])
         c.reached("sequence")
     finally:
